@@ -35,7 +35,10 @@ TRUSTED_BASE = [
 ASSUMPTIONS = ["requests are non-negative integers in core/ram/disk; the other capacity fields of a request are 0 (the filter ignores them, the sort compares catalogue entries only)"]
 RULE = ("sizing: off-grid requests (random, huge in one/two/three dimensions) and every request on the grid {0} ∪ {v, v+1 (quick) | v-1, v, v+1 (thorough)} per dimension over the catalogue's distinct values (both ends of every threshold class); "
         "components: every catalogue entry and alias × id/label/parent/ns-id argument combinations incl. wrong lengths and unknown models; "
-        "sessions: every entry generated twice in a row (with and without caller labels) and mixed sequences, object identities numbered by first appearance; "
+        "sessions: every entry generated twice in a row (with and without caller labels) and mixed sequences, object identities numbered by first appearance, "
+        "each session with a catalogue object per call and with ONE catalogue object; sizing sequences: request OBJECTS created, re-submitted, changed in "
+        "place (attribute / _set_fields; grow, shrink, ignored fields) and re-submitted, interleaved with other objects, one InstanceCatalog object "
+        "per sequence and one per call, every answer compared with the stateless model on the values at the time of the call; "
         "distinct by request / argument tuple; non-trivial = request fits at least one and not all entries, or component has interfaces")
 EXHAUSTIVE = True
 
@@ -109,6 +112,128 @@ def sizing_oracle(req, name, entries, res):
             res.violation("C18:sizing:fallback", "nothing satisfies the request but the last (largest) size was not returned", case, observed=name)
         if any(not (e[1][0] <= got[0] and e[1][1] <= got[1] and e[1][2] <= got[2]) for e in entries):
             res.violation("C18:sizing:fallback-not-largest", "the fallback size is not the largest", case, observed=[name, list(got)])
+
+
+
+# ---------------------------------------------------------------- sizing: request objects re-used and changed in place
+
+SEQ_MODES = ("shared-catalog", "fresh-catalog")
+
+
+def seq_values(ops):
+    """The (core, ram, disk) every pick of the sequence asks for - computed from the operations alone (what a stateless
+    sizing function is handed), never from the implementation's objects."""
+    cur, out = {}, []
+    for op in ops:
+        if op[0] == "new":
+            cur[op[1]] = [op[2], op[3], op[4]]
+        elif op[0] == "set":
+            for f, v in op[3].items():
+                if f in ("core", "ram", "disk"):
+                    cur[op[1]][("core", "ram", "disk").index(f)] = v
+        elif op[0] == "pick":
+            out.append(list(cur[op[1]]))
+    return out
+
+
+def impl_pickseq(req):
+    """req = ["pickseq", mode, ops]; ops: ["new", k, core, ram, disk] makes request object k, ["set", k, how, {field: value}]
+    changes it IN PLACE (attribute assignment / _set_fields), ["pick", k] submits that very object again.  One InstanceCatalog
+    object serves the whole sequence (mode shared-catalog) or a new one every call."""
+    from fim.slivers.instance_catalog import InstanceCatalog
+    from fim.slivers.capacities_labels import Capacities
+    _, mode, ops = req
+    objs, out = {}, []
+    shared = InstanceCatalog()
+    for op in ops:
+        if op[0] == "new":
+            objs[op[1]] = Capacities(core=op[2], ram=op[3], disk=op[4])
+        elif op[0] == "set":
+            c = objs[op[1]]
+            if op[2] == "attr":
+                for f, v in op[3].items():
+                    setattr(c, f, v)
+            else:
+                c._set_fields(**op[3])
+        else:
+            c = objs[op[1]]
+            before = (c.core, c.ram, c.disk, c.unit, c.bw)
+            ic = shared if mode == "shared-catalog" else InstanceCatalog()
+            try:
+                r = ["ok", ic.map_capacities_to_instance(cap=c)]
+            except Exception as e:
+                r = ["err", err_kind(e)]
+            if (c.core, c.ram, c.disk, c.unit, c.bw) != before:
+                r = ["err", "request-object-changed-by-the-call"]
+            out.append(r)
+    return ["ok", out]
+
+
+def pickseq_requests(rng, entries, n):
+    """Deterministic sequences first (grow / shrink in place and re-submit, equal-but-distinct objects, other requests in
+    between, fields the filter ignores), then random ones over catalogue values and their neighbours."""
+    seqs = [
+        # one object: map, grow in place, map again, grow other dimensions, shrink
+        [["new", 0, 2, 8, 10], ["pick", 0], ["set", 0, "attr", {"disk": 500}], ["pick", 0],
+         ["set", 0, "_set_fields", {"core": 16, "ram": 32}], ["pick", 0], ["set", 0, "_set_fields", {"core": 1, "ram": 2, "disk": 10}], ["pick", 0]],
+        # the same with another request mapped in between, and the first object re-submitted unchanged
+        [["new", 0, 2, 8, 10], ["new", 1, 4, 16, 100], ["pick", 0], ["pick", 1], ["set", 0, "attr", {"disk": 500}], ["pick", 0], ["pick", 0],
+         ["pick", 1], ["set", 1, "attr", {"core": 1}], ["pick", 1], ["pick", 0]],
+        # equal but distinct objects; one of them changes
+        [["new", 0, 2, 8, 10], ["new", 1, 2, 8, 10], ["pick", 0], ["pick", 1], ["set", 0, "attr", {"ram": 9}], ["pick", 1], ["pick", 0],
+         ["set", 1, "_set_fields", {"ram": 9}], ["pick", 1]],
+        # satisfiable -> unsatisfiable -> satisfiable on one object (fallback must not stick, a real answer must not stick)
+        [["new", 0, 1, 1, 1], ["pick", 0], ["set", 0, "attr", {"core": 10 ** 6}], ["pick", 0], ["set", 0, "attr", {"core": 3}], ["pick", 0],
+         ["set", 0, "attr", {"disk": 10 ** 9}], ["pick", 0], ["set", 0, "attr", {"disk": 0, "core": 0, "ram": 0}], ["pick", 0]],
+        # fields the sizing ignores change: the answer must stay
+        [["new", 0, 8, 32, 100], ["pick", 0], ["set", 0, "attr", {"unit": 3}], ["pick", 0], ["set", 0, "_set_fields", {"bw": 100}], ["pick", 0],
+         ["set", 0, "attr", {"unit": 0, "core": 9}], ["pick", 0]],
+    ]
+    vals = [sorted({e[1][d] for e in entries}) for d in range(3)]
+
+    def pt(d):
+        v = rng.choice(vals[d])
+        return max(v + rng.choice([-1, 0, 0, 1]), 0)
+    for _ in range(n):
+        k = rng.randrange(1, 4)
+        ops = [["new", j, pt(0), pt(1), pt(2)] for j in range(k)]
+        for _ in range(rng.randrange(4, 14)):
+            j = rng.randrange(k)
+            r = rng.random()
+            if r < 0.5:
+                ops.append(["pick", j])
+            elif r < 0.9:
+                fs = rng.sample(["core", "ram", "disk"], rng.randrange(1, 4))
+                ops.append(["set", j, rng.choice(["attr", "_set_fields"]), {f: pt(("core", "ram", "disk").index(f)) for f in fs}])
+                ops.append(["pick", j])
+            elif r < 0.95:
+                ops.append(["set", j, "attr", {rng.choice(["unit", "bw"]): rng.randrange(0, 5)}])
+            else:
+                ops.append(["new", j, pt(0), pt(1), pt(2)])     # the name is bound to a new object
+        ops.append(["pick", rng.randrange(k)])
+        seqs.append(ops)
+    return [["pickseq", m, ops] for ops in seqs for m in SEQ_MODES]
+
+
+def pickseq_oracle(req, reply, entries, res):
+    """every answer of the sequence is judged on the request as it is at the time of the call; equal requests get equal answers"""
+    first = {}
+    for k, (vals, r) in enumerate(zip(seq_values(req[2]), reply[1])):
+        case = {"request": req, "call": k, "values": vals}
+        if r[0] != "ok":
+            res.violation("C18:sizing:sequence:raises:" + r[1], "map_capacities_to_instance raised / changed the request object on a re-submitted request", case)
+            return
+        sub = type(res)()
+        sizing_oracle(tuple(vals), r[1], entries, sub)
+        for v in sub.violations:
+            res.violation(v["signature"].replace("C18:sizing:", "C18:sizing:sequence:"),
+                          v["what"] + " (request object re-used / changed in place between calls)", case,
+                          observed=v.get("observed"), expected=v.get("expected"))
+            return
+        if first.setdefault(tuple(vals), r[1]) != r[1]:
+            res.violation("C18:sizing:sequence:answer-depends-on-history", "the same request is mapped to different sizes within one sequence",
+                          case, observed=r[1], expected=first[tuple(vals)])
+            return
 
 
 # ---------------------------------------------------------------- components
@@ -196,10 +321,11 @@ def impl_session(req):
     from fim.slivers.component_catalog import ComponentCatalog
     from fim.slivers.attached_components import ComponentType
     seen, keep, out, made, info = {}, [], [], [], []
+    one = ComponentCatalog() if len(req) > 2 and req[2] == "one-catalog-object" else None
     for model, ctype, ids, labels in req[1]:
         labs = None if labels is None else [_mk_label(x) for x in labels]
         try:
-            cs = ComponentCatalog().generate_component(name="nm", ctype=ComponentType[ctype], model=model,
+            cs = (one or ComponentCatalog()).generate_component(name="nm", ctype=ComponentType[ctype], model=model,
                                                        interface_node_ids=None if ids is None else list(ids), interface_labels=labs)
         except Exception:
             continue
@@ -247,7 +373,18 @@ def session_requests(cat, rng):
         lab += [args(c, True), args(c, False), args(c, True)]
     mixed = [args(rng.choice(cat), rng.random() < 0.4) for _ in range(30)] + [["NoSuchModel", "GPU", None, None]]
     alias = [[a, c["Type"], None, None] for c in cat for a in (c.get("AlsoModels") or [])] * 2
-    return [["session", twice], ["session", lab], ["session", mixed], ["session", alias]]
+    base = [["session", twice], ["session", lab], ["session", mixed], ["session", alias]]
+    # the same sessions served by ONE ComponentCatalog object (state kept on the instance shows here)
+    return base + [b + ["one-catalog-object"] for b in base]
+
+
+def model_lines(r):
+    """the request lines the (stateless) model gets for one harness request"""
+    if r[0] == "pickseq":
+        return [["pick"] + v for v in seq_values(r[2])]
+    if r[0] == "session":
+        return [r[:2]]
+    return [r]
 
 
 def _uuidish(s):
@@ -421,7 +558,8 @@ def _run(ctx, res, with_model, with_oracle, thorough=None):
     cat, creqs = comp_requests(ctx.sub_rng("comp"), thorough)
     off = offgrid(ctx.sub_rng("offgrid"), 400 if not thorough else 4000)
     sess = session_requests(cat, ctx.sub_rng("session"))
-    reqs = ([["pick"] + list(r) for r in grid] + [["pick"] + r for r in off] + [["caps", n] for n, _ in entries[::7]] + [["caps", "no.such"]]
+    seqs = pickseq_requests(ctx.sub_rng("pickseq"), entries, 150 if not thorough else 1500)
+    reqs = ([["pick"] + list(r) for r in grid] + [["pick"] + r for r in off] + seqs + [["caps", n] for n, _ in entries[::7]] + [["caps", "no.such"]]
             + [["enum"]] + creqs + sess)
     key = (thorough, ctx.seed)
     impl = _CACHE.get(key)
@@ -437,6 +575,8 @@ def _run(ctx, res, with_model, with_oracle, thorough=None):
             impl.append(["ok", [m.name for m in cc.ComponentModelType]])
         elif r[0] == "session":
             impl.append(impl_session(r))
+        elif r[0] == "pickseq":
+            impl.append(impl_pickseq(r))
         else:
             impl.append(impl_gen(r))
     nall = len(entries)
@@ -455,8 +595,21 @@ def _run(ctx, res, with_model, with_oracle, thorough=None):
         elif r[0] == "session":
             res.count("session:components", len(i[1]))
             res.count("session:objects", sum(len(x) for x in i[1]))
+            res.count("session:" + ("one-catalog-object" if len(r) > 2 else "catalog-object-per-call"))
+        elif r[0] == "pickseq":
+            res.count("pickseq:" + r[1])
+            res.count("pickseq:calls", len(i[1]))
+            res.count("pickseq:in-place-changes", sum(1 for o in r[2] if o[0] == "set"))
+            res.evaluations += len(i[1]) - 1
+            res.nontrivial.add(canon(r))
     if with_model:
-        model = LeanDriver("C18").run([json.dumps(r) for r in reqs])
+        per = [model_lines(r) for r in reqs]
+        flat = LeanDriver("C18").run([json.dumps(l) for ls in per for l in ls])
+        model, at = [], 0
+        for r, ls in zip(reqs, per):
+            chunk = flat[at:at + len(ls)]
+            at += len(ls)
+            model.append(json.dumps(["ok", [json.loads(x) for x in chunk]]) if r[0] == "pickseq" else chunk[0])
         for r, i, m in zip(reqs, impl, model):
             mj = json.loads(m)
             if mj != json.loads(json.dumps(i)):
@@ -474,6 +627,8 @@ def _run(ctx, res, with_model, with_oracle, thorough=None):
                 comp_oracle(cat, r, i, res)
             elif r[0] == "session":
                 session_oracle(r, i, res)
+            elif r[0] == "pickseq":
+                pickseq_oracle(r, i, entries, res)
         enum_oracle(cat, res)
         res.sample({"request": reqs[3], "impl": impl[3], "oracle": "sufficient / Pareto-minimal / fallback / name-capacities"})
 
@@ -497,6 +652,9 @@ def replay(ctx, payload):
     case = payload["case"]
     if "request" in case and isinstance(case["request"], list) and case["request"] and case["request"][0] == "session":
         session_oracle(case["request"], impl_session(case["request"]), r)
+    elif "request" in case and isinstance(case["request"], list) and case["request"] and case["request"][0] == "pickseq":
+        inst = InstanceCatalog().list_instances()
+        pickseq_oracle(case["request"], impl_pickseq(case["request"]), [(k, (v.core, v.ram, v.disk)) for k, v in inst.items()], r)
     elif "request" in case and isinstance(case["request"], list) and case["request"] and case["request"][0] == "gen":
         cat, _ = comp_requests(ctx.sub_rng("comp"), False)
         comp_oracle(cat, case["request"], impl_gen(case["request"]), r)
